@@ -1,5 +1,6 @@
 import PsyVerif.Lemmas.DepPart
 import PsyVerif.Lemmas.DepWhile
+import PsyVerif.Lemmas.DepSig
 /-! # C08 — loops reported parallelisable have no loop-carried dependence
 
 Model: `PsyVerif/Model/DepTools.lean` mirrors `DependencyTools.can_loop_be_parallelised` on MiniF loops
@@ -19,7 +20,11 @@ C08-inner-variable-subscript.  Per-iteration footprints are the element-level ev
   `symbolic_coefficient_refused` (the conflict is real and the fixed analysis refuses the loop).
 * Termination: `depDistance_terminates` / `C08_terminates` (fixed `d_<var>` loop, fuel = |symbol map| + 1),
   `dvar_loop_diverges` / `dvar_loop_trace` (the pinned loop spins on `{d_i, d1_i}`), `partition_terminates`
-  (the literal `while` loop of `_partition` with fuel `len + 1` computes the partition the proofs use). -/
+  (the literal `while` loop of `_partition` with fuel `len + 1` computes the partition the proofs use).
+* Structure members: the variable ids are SIGNATURES (`Model/DepSig.lean`: `cfg%off`, `p(i)%x`, `g%a(i)`);
+  `C08_partial_sig` restates `C08_partial` for signature-level storage under the checked precondition `sigTabOk`
+  (no access to a whole structure next to one of its members); `member_stale_refused` /
+  `stale_by_name_counterexample`: the modified-subscript-variable test must compare FULL signatures. -/
 namespace C08
 open MiniF
 
@@ -651,5 +656,96 @@ example : messages [] 0 (.lit 2) (.lit 5) (.lit 1)
     (.store2 6 (.bin .div (.var 7) (.lit 2)) (.var 0)
       (.bin .add (.idx2 6 (.bin .div (.bin .add (.var 7) (.lit 1)) (.lit 2)) (.bin .sub (.var 0) (.lit 1))) (.lit 1)))
     = [(202, 6)] := by decide
+
+/-! ## Structure members: the variables are signatures -/
+
+/-- **C08, partial, for signature-level storage.**  Let the ids of the loop be signatures (`tab`), pairwise
+distinct and none a proper prefix of another (`sigTabOk`: no whole-structure access next to a member access).  If
+iteration `val` writes a piece of storage and iteration `val'` touches storage that OVERLAPS it (same signature and
+subscripts — `cfg%off`, `p(3)%x`, `g%a(3)` — or a containing structure), the two events are the same MiniF location
+and it is a scalar (possibly a scalar member such as `cfg%off`) every iteration unconditionally writes before
+reading.  In particular distinct members of one structure (`cfg%off`, `cfg%n2`) and equally named members of
+different structures never conflict, and nothing else does either. -/
+theorem C08_partial_sig (tab : SigTab) (hok : sigTabOk tab = true)
+    (dn : List (Nat × Nat)) (v : Nat) (lo hi st : Expr) (body : Stmt)
+    (hwf : WellFormed v lo hi st body) (hpar : canParallelise dn v lo hi st body = true)
+    (hsc : ScalarsUnconditional v lo hi st body)
+    (σ σ' : Store) (hσ : AgreeOff (v :: C08.wvars body) σ σ') (val val' : Int) (hval : val ≠ val')
+    (l l' : Loc) (b : Bool) (hw : (true, l) ∈ iterTrace v body σ val) (ho : (b, l') ∈ iterTrace v body σ' val')
+    (s s' : SLoc) (hs : slocOf tab l = some s) (hs' : slocOf tab l' = some s') (hov : overlaps s s') :
+    l' = l ∧ ∃ x, l = (x, 0, 0) ∧ privScalar body x = true := by
+  simp only [slocOf, Option.map_eq_some_iff] at hs hs'
+  obtain ⟨t, ht, rfl⟩ := hs
+  obtain ⟨t', ht', rfl⟩ := hs'
+  have hll : l' = l := by
+    rcases hov with ⟨h1, h2⟩ | h | h
+    · simp only at h1 h2
+      subst h1
+      have hid := sigOf_inj (sigTabOk_nodup hok) ht ht'
+      simp only [Prod.mk.injEq] at h2
+      obtain ⟨a, p, q⟩ := l
+      obtain ⟨a', p', q'⟩ := l'
+      simp only at hid h2
+      rw [hid, h2.1, h2.2]
+    · simp only at h
+      rw [sigTabOk_noPrefix hok ht ht'] at h
+      exact absurd h (by simp)
+    · simp only at h
+      rw [sigTabOk_noPrefix hok ht' ht] at h
+      exact absurd h (by simp)
+  subst hll
+  exact ⟨rfl, C08_partial dn v lo hi st body hwf hpar hsc σ σ' hσ val val' hval l' ⟨hw, b, ho⟩⟩
+
+/-- ids: i=0, a=1, b=2, c=3, `cfg%off`=8, `cfg%n2`=9 (base `cfg`=20, members `off`=21, `n2`=22) -/
+def memberTab : SigTab :=
+  [(0, ⟨0, []⟩), (1, ⟨1, []⟩), (2, ⟨2, []⟩), (3, ⟨3, []⟩), (8, ⟨20, [21]⟩), (9, ⟨20, [22]⟩)]
+
+/-- `do i: cfg%off = b(i); a(i + cfg%off) = 1` -/
+def memberStaleBody : Stmt :=
+  .seq (.assign 8 (.idx1 2 (.var 0))) (.store1 1 (.bin .add (.var 0) (.var 8)) (.lit 1))
+
+/-- the member `cfg%off` is recomputed in every iteration and used in the subscript of `a`: with `b(0)=1, b(1)=0`
+iterations 0 and 1 both write `a(1)`, and the analysis (which compares full signatures) refuses the loop -/
+theorem member_stale_refused :
+    sigTabOk memberTab = true ∧ sigCovers memberTab [0, 1, 2, 8] = true ∧
+    Conflict 0 memberStaleBody staleStore staleStore 0 1 (1, 1, 0) ∧
+    messages [] 0 (.lit 0) (.lit 5) (.lit 1) memberStaleBody = [(202, 1)] := by
+  refine ⟨by decide, by decide, ⟨by decide, true, by decide⟩, by decide⟩
+
+/-- recording only the base name (`Signature.var_name`) of what the loop modifies is UNSOUND: `cfg` is no
+signature used in a subscript, the test finds nothing, the pairwise test accepts `a(i + cfg%off)` (distance 0 with
+`cfg%off` taken for loop invariant) — and the conflict of `member_stale_refused` is real -/
+theorem stale_by_name_counterexample :
+    let all := loopAccesses 0 (.lit 0) (.lit 5) (.lit 1) memberStaleBody
+    staleSubscriptBy (nameKey memberTab) [0] all (accsOf 1 all) = false ∧
+    staleSubscriptBy sigKey [0] all (accsOf 1 all) = true ∧
+    arrayPar [0] [] (accsOf 1 all) = none ∧
+    Conflict 0 memberStaleBody staleStore staleStore 0 1 (1, 1, 0) := by
+  refine ⟨by decide, by decide, by decide, ⟨by decide, true, by decide⟩⟩
+
+/-- `do i: cfg%n2 = b(i); c(i) = cfg%n2; a(i + cfg%off) = a(i + cfg%off) + 1`: a SIBLING member is modified, the
+subscript member is not -/
+def memberSiblingBody : Stmt :=
+  .seq (.assign 9 (.idx1 2 (.var 0)))
+    (.seq (.store1 3 (.var 0) (.var 9))
+      (.store1 1 (.bin .add (.var 0) (.var 8)) (.bin .add (.idx1 1 (.bin .add (.var 0) (.var 8))) (.lit 1))))
+
+/-- non-vacuity of `C08_partial_sig` on a loop with members: all hypotheses hold, the loop is accepted although
+`cfg%n2` (same base name as the subscript member `cfg%off`) is modified -/
+example : sigTabOk memberTab = true ∧ WellFormed 0 (.lit 0) (.lit 5) (.lit 1) memberSiblingBody ∧
+    canParallelise [] 0 (.lit 0) (.lit 5) (.lit 1) memberSiblingBody = true ∧
+    ScalarsUnconditional 0 (.lit 0) (.lit 5) (.lit 1) memberSiblingBody := by
+  refine ⟨by decide, by decide, by decide, by decide⟩
+
+-- the exception is exercised at signature level: both iterations write the private scalar member `cfg%n2`
+example : Conflict 0 memberSiblingBody zeroStore zeroStore 0 1 (9, 0, 0) ∧ privScalar memberSiblingBody 9 = true ∧
+    slocOf memberTab (9, 0, 0) = some (⟨20, [22]⟩, 0, 0) :=
+  ⟨⟨by decide, true, by decide⟩, by decide, by decide⟩
+
+-- a whole-structure access next to a member access is outside the precondition
+example : sigTabOk [(8, ⟨20, [21]⟩), (10, ⟨20, []⟩)] = false := by decide
+example : sigTabOk [(8, ⟨20, [21]⟩), (10, ⟨20, [21]⟩)] = false := by decide
+example : overlaps (⟨20, []⟩, 0, 0) (⟨20, [21]⟩, 0, 0) := Or.inr (Or.inl (by decide))
+example : nameKey memberTab 8 = none ∧ nameKey memberTab 1 = some 1 := by decide
 
 end C08
